@@ -61,8 +61,8 @@ func newRecorder(path string, rep *vsup.Report) (*recorder, error) {
 // emit appends one event; returns its sequence number.
 func (r *recorder) emit(ev string, kv ...any) int {
 	m := map[string]any{"ev": ev}
-	if ev == "Reset" || ev == "Grace" || ev == "PeerDial" || ev == "PeerDone" || ev == "PeersTimeout" || ev == "Quiesce" || ev == "StopReq" || ev == "RunRet" {
-		m["ms"] = time.Since(recStart).Milliseconds() // (information only: no verdict reads it)
+	if ev == "Reset" || ev == "Grace" || ev == "PeerDial" || ev == "PeerDone" || ev == "PeersTimeout" || ev == "Quiesce" || ev == "StopReq" || ev == "RunRet" || ev == "Tick" || ev == "TickEnd" {
+		m["ms"] = time.Since(recStart).Milliseconds() // (monotonic clock; read only by the ticker rules of TrLife: Tick / TickEnd)
 	}
 	for i := 0; i+1 < len(kv); i += 2 {
 		m[kv[i].(string)] = kv[i+1]
